@@ -173,6 +173,3 @@ Lemma guarded_outside t c m : guarded t Outside c m = by_rule t Outside c m.
 Proof. destruct m; reflexivity. Qed.
 Lemma by_rule_outside t d d' m : by_rule t Outside d m = by_rule t Outside d' m.
 Proof. destruct m; reflexivity. Qed.
-
-Lemma store_no_effect d ok vals p v : (d <> Allow \/ ok = false) -> store d ok vals p v = (vals, false).
-Proof. intros H. destruct d; try reflexivity. destruct ok; [|reflexivity]. destruct H; congruence. Qed.
